@@ -66,10 +66,9 @@ Record p2req := mkQ {
 
 Inductive p2event :=
 | EInvoke (act : bytes) (commit : bool) (xid : bytes) (bid : Z) (resource : bytes) (ctx : list (bytes * goval))
-| ERespond (msgid : Z) (commit : bool) (xid : bytes) (bid : Z) (status code : N)
-| EPanic.
+| ERespond (msgid : Z) (commit : bool) (xid : bytes) (bid : Z) (status code : N).
 
-(* getBusinessActionContext; None = the code panics (known finding tcc.appdata.malformed) *)
+(* getBusinessActionContext; None = malformed application data (businessActionContextOf returns an error) *)
 Definition ctx_of (d : appdata) : option (list (bytes * goval)) :=
   match d with
   | AEmpty => Some []
@@ -105,7 +104,9 @@ Definition registered (reg : list bytes) (r : bytes) : bool := existsb (bytes_eq
 Definition phase2 (reg : list bytes) (q : p2req) : list p2event :=
   if registered reg (q_resource q) then
     match ctx_of (q_app q) with
-    | None => [EPanic]
+    | None =>
+        (* unreadable application data: no user code, the failure is reported as retryable *)
+        [ERespond (q_msgid q) (q_commit q) (q_xid q) (q_bid q) (status_of (q_commit q) true) (code_of true)]
     | Some ctx =>
         [EInvoke (q_resource q) (q_commit q) (q_xid q) (q_bid q) (q_resource q) ctx;
          ERespond (q_msgid q) (q_commit q) (q_xid q) (q_bid q)
